@@ -142,6 +142,24 @@ def step (s : St) (args : List String) : St × String × String :=
   | ["pace", how] =>
       if how == "plain" || how == "reconnect" || how == "rt" then (s, "paced=1 done=1 leak=0 twice=0", "paced=1 done=1 leak=0 twice=0")
       else (s, "bad-op", "bad-op")
+  -- k targets sharing one address of the real connection.Manager; the joint first dial is refused (r) or
+  -- cancelled through the creator's Reconnect (k), `fails` further dials are refused, then dials succeed:
+  -- every sharer is connected, exactly fails+2 dials were made (a failed shared dial is forgotten: the
+  -- next request dials afresh, C16.next_request_dials_afresh; none while the connection is shared), a
+  -- sharer releasing the shared connection (j) does not disturb the others (C16.never_closed_while_held),
+  -- ledger clean, connection.Manager empty at the end.  The interleaving of the sharers' retries is left
+  -- to the real goroutines; only this quiescent end state is compared.
+  | ["shared", ks, fs, mode] =>
+      match ks.toNat?, fs.toNat? with
+      | some k, some f =>
+        if (k == 2 || k == 3) && f ≤ 3 && (mode == "r" || mode == "k" || mode == "rj" || mode == "kj") then
+          let acq := if mode == "rj" || mode == "kj" then k + 1 else k
+          let o := "connected=" ++ toString k ++ "/" ++ toString k ++ " dials=" ++ toString (f + 2) ++
+            " steady=1 acc=1 done=1 acq=" ++ toString acq ++ " leak=0 twice=0 uad=0 cm=0 open=0"
+          (s, o, o)
+        else (s, "bad-op", "bad-op")
+      | _, _ => (s, "bad-op", "bad-op")
+  | "shared" :: _ => (s, "bad-op", "bad-op")
   | "run" :: rest => runLine s rest ""
   | "runc" :: rest => runLine s rest " # cm=0 open=0"
   | _ => (s, "bad-op", "bad-op")
